@@ -205,20 +205,75 @@ func cmdDecls(args []string) {
 	wd.Flush()
 }
 
-func runOne(trees []*Tree, sc *Scenario) {
-	if sc.Decl < 1 || sc.Decl > len(trees) {
-		die(2, "scenario %d refers to unknown declaration %d", sc.ID, sc.Decl)
+// family: how one kind of scenario line is run against the real library, and what is recorded
+// when the process running it died or hung.
+type family struct {
+	run   func(trees []*Tree, line []byte) any
+	crash func(line []byte, timeout bool, msg string) any
+}
+
+var families = map[string]family{}
+
+func famOf(line []byte) family {
+	var h struct {
+		Fam string `json:"fam"`
 	}
-	t := trees[sc.Decl-1]
-	switch sc.Fam {
-	case "argparse", "":
-		sc.Obs = runArgparse(t, sc, sc.Argv)
-		if sc.Alt != nil {
-			sc.ObsAlt = runArgparse(t, sc, sc.Alt)
-		}
-	default:
-		die(2, "unknown family %q", sc.Fam)
+	json.Unmarshal(line, &h)
+	if h.Fam == "" {
+		h.Fam = "argparse"
 	}
+	f, ok := families[h.Fam]
+	if !ok {
+		die(2, "unknown family %q", h.Fam)
+	}
+	return f
+}
+
+func emptyObs() *Obs {
+	return &Obs{ErrNames: []S{}, Values: [][]any{}, Pos: [][][]S{}, Retargs: []S{}, Chain: []int{}, Events: []event{}, IsSet: []bool{}}
+}
+
+func init() {
+	families["argparse"] = family{
+		run: func(trees []*Tree, line []byte) any {
+			sc := &Scenario{}
+			if err := json.Unmarshal(line, sc); err != nil {
+				die(2, "scenario: %v: %s", err, line)
+			}
+			if sc.Decl < 1 || sc.Decl > len(trees) {
+				die(2, "scenario %d refers to unknown declaration %d", sc.ID, sc.Decl)
+			}
+			t := trees[sc.Decl-1]
+			sc.Obs = runArgparse(t, sc, sc.Argv)
+			if sc.Alt != nil {
+				sc.ObsAlt = runArgparse(t, sc, sc.Alt)
+			}
+			return sc
+		},
+		crash: func(line []byte, timeout bool, msg string) any {
+			sc := &Scenario{}
+			json.Unmarshal(line, sc)
+			sc.Obs = emptyObs()
+			if timeout {
+				sc.Obs.Timeout = true
+				sc.Obs.ErrType = "timeout"
+			} else {
+				sc.Obs.Panic = true
+				sc.Obs.ErrType = "panic"
+				sc.Obs.PanicMsg = toS(msg)
+			}
+			if sc.Alt != nil {
+				sc.ObsAlt = sc.Obs
+			}
+			return sc
+		},
+	}
+}
+
+func loadLines(path string) [][]byte {
+	var ls [][]byte
+	readLines(path, func(line []byte) { ls = append(ls, append([]byte{}, bytes.TrimSpace(line)...)) })
+	return ls
 }
 
 func cmdWorker(args []string) {
@@ -229,19 +284,21 @@ func cmdWorker(args []string) {
 	to := fs.Int("to", 0, "")
 	out := fs.String("out", "", "")
 	fs.Parse(args)
-	trees := loadTrees(*treesF)
+	var trees []*Tree
+	if *treesF != "" {
+		trees = loadTrees(*treesF)
+	}
 	for _, t := range trees {
 		Flatten(t)
 	}
-	scs := loadScenarios(*scenF)
+	scs := loadLines(*scenF)
 	fo, err := os.OpenFile(*out, os.O_APPEND|os.O_CREATE|os.O_WRONLY, 0o644)
 	if err != nil {
 		die(2, "%v", err)
 	}
 	initCapture(os.TempDir())
 	for i := *from; i < *to && i < len(scs); i++ {
-		runOne(trees, scs[i])
-		fo.Write(marshalLine(scs[i]))
+		fo.Write(marshalLine(famOf(scs[i]).run(trees, scs[i])))
 	}
 	fo.Close()
 }
@@ -264,7 +321,7 @@ func cmdRun(args []string) {
 	workers := fs.Int("workers", 8, "")
 	stall := fs.Duration("stall", 20*time.Second, "")
 	fs.Parse(args)
-	scs := loadScenarios(*scenF)
+	scs := loadLines(*scenF)
 	n := len(scs)
 	if n == 0 {
 		os.WriteFile(*out, nil, 0o644)
@@ -323,18 +380,9 @@ func cmdRun(args []string) {
 					die(2, "worker ended early without error")
 				}
 				// the scenario at lo killed or hung the process
-				sc := scs[lo]
-				sc.Obs = &Obs{ErrNames: []S{}, Values: [][]any{}, Pos: [][][]S{}, Retargs: []S{}, Chain: []int{}, Events: []event{}, IsSet: []bool{}}
-				if killed {
-					sc.Obs.Timeout = true
-					sc.Obs.ErrType = "timeout"
-				} else {
-					sc.Obs.Panic = true
-					sc.Obs.ErrType = "panic"
-					sc.Obs.PanicMsg = toS("process died: " + fmt.Sprint(werr))
-				}
+				rec := famOf(scs[lo]).crash(scs[lo], killed, "process died: "+fmt.Sprint(werr))
 				fo, _ := os.OpenFile(part, os.O_APPEND|os.O_CREATE|os.O_WRONLY, 0o644)
-				fo.Write(marshalLine(sc))
+				fo.Write(marshalLine(rec))
 				fo.Close()
 				lo++
 			}
@@ -365,6 +413,75 @@ func main() {
 		cmdWorker(os.Args[2:])
 	case "ftab":
 		cmdFtab(os.Args[2:])
+	case "gen-session":
+		fs := flag.NewFlagSet("gen-session", flag.ExitOnError)
+		seed := fs.Int64("seed", 1, "")
+		ntrees := fs.Int("ntrees", 50, "")
+		per := fs.Int("per", 20, "")
+		kind := fs.String("kind", "robust", "robust | equiv | sources | roundtrip | determinism")
+		repeat := fs.Int("repeat", 50, "")
+		outTrees := fs.String("trees", "trees.ndjson", "")
+		outDecls := fs.String("decls", "decls.ndjson", "")
+		outScen := fs.String("scen", "scen.ndjson", "")
+		fs.Parse(os.Args[2:])
+		r := rand.New(rand.NewSource(*seed))
+		ft, _ := os.Create(*outTrees)
+		fd, _ := os.Create(*outDecls)
+		fsn, _ := os.Create(*outScen)
+		wt, wd, ws := bufio.NewWriter(ft), bufio.NewWriter(fd), bufio.NewWriter(fsn)
+		id := 0
+		for n := 1; n <= *ntrees; {
+			var t *Tree
+			if *kind == "roundtrip" || (*kind == "determinism" && n%2 == 0) {
+				t = genTreeRT(r, n)
+			} else {
+				t = genTree(r, n)
+			}
+			Flatten(t)
+			if !treeOK(t) {
+				continue
+			}
+			t.ID = n
+			wt.Write(marshalLine(t))
+			wd.Write(marshalLine(Flatten(t)))
+			for k := 0; k < *per; k++ {
+				id++
+				var sc *SessionScn
+				switch *kind {
+				case "robust":
+					sc = genSessionRobust(r, t, id)
+				case "equiv":
+					sc = genSessionEquiv(r, t, id)
+				case "sources":
+					sc = genSessionSources(r, t, id)
+				case "roundtrip":
+					sc = genSessionRoundTrip(r, t, id)
+				case "determinism":
+					sc = genSessionDeterminism(r, t, id, *repeat)
+				default:
+					die(2, "unknown kind %s", *kind)
+				}
+				ws.Write(marshalLine(sc))
+			}
+			n++
+		}
+		wt.Flush()
+		wd.Flush()
+		ws.Flush()
+	case "gen-closest":
+		fs := flag.NewFlagSet("gen-closest", flag.ExitOnError)
+		seed := fs.Int64("seed", 1, "")
+		n := fs.Int("n", 1000, "")
+		out := fs.String("scen", "scen.ndjson", "")
+		fs.Parse(os.Args[2:])
+		r := rand.New(rand.NewSource(*seed))
+		f, _ := os.Create(*out)
+		w := bufio.NewWriter(f)
+		for i := 1; i <= *n; i++ {
+			w.Write(marshalLine(genClosest(r, i)))
+		}
+		w.Flush()
+		f.Close()
 	default:
 		die(2, "unknown command %s", os.Args[1])
 	}
